@@ -17,7 +17,7 @@ static void init(void) { g_explore = (int)vx_opt_int("--explore", 0); g_samples 
 
 static const int COUNTS[] = {11, 0, 1, 2, 5, 40};
 static const int SSIZES[] = {1000, 0, 1, 7, 8, 9, 64};
-static const size_t CAPS[] = {16384, 0, 7, 8, 255, 256, 1024, 112640};
+static const size_t CAPS[] = {16384, 0, 7, 8, 255, 256, 1024, 112640, 1027, 16389};     /* the last two leave a remainder of 3 / 5 bytes after whole segments of k = 64 */
 static const char* ALG[] = {"fastCover", "trainFromBuffer", "cover", "optimizeCover", "optimizeFastCover", "legacy", "finalizeDictionary", "addEntropyTables"};
 
 /* content classes: 0 shared 32-byte motif + noise, 1 one symbol, 2 two symbols, 3 all samples identical */
@@ -41,7 +41,7 @@ static size_t build_samples(int count, int ssize, int content, int varySizes) {
 }
 
 static void body(void) {
-    int ci = vx_deviate(6), si = vx_deviate(7), content = vx_deviate(4), vary = vx_deviate(2), capi = vx_deviate(8), alg = vx_choose(8);
+    int ci = vx_deviate(6), si = vx_deviate(7), content = vx_deviate(4), vary = vx_deviate(2), capi = vx_deviate(10), alg = vx_choose(8);
     int count = COUNTS[ci], ssize = SSIZES[si]; size_t cap = CAPS[capi];
     /* tuning parameters at {typical, min-1, min, > corpus} */
     static const unsigned KS[] = {64, 0, 1, 5000000}, DS[] = {8, 0, 6, 16, 5}, FS[] = {12, 0, 1, 31, 32}, ACC[] = {1, 0, 10, 11}, STEPS[] = {4, 1, 0};
@@ -57,7 +57,7 @@ static void body(void) {
     ZDICT_params_t zp; memset(&zp, 0, sizeof zp); zp.compressionLevel = level; zp.dictID = forcedID;
     size_t res[2] = {0, 0};
     for (int run = 0; run < 2; run++) {
-        u8* dst = run ? g_dict2 : g_dict; memset(dst, 0xCD, cap + 16);
+        u8* dst = run ? g_dict2 : g_dict; const u8 fillByte = run ? 0x3C : 0xCD; memset(dst, fillByte, cap + 16);      /* the two runs start from different buffer contents: the result may not depend on them */
         vs_config_t cfg; memset(&cfg, 0, sizeof cfg); cfg.pick = (g_explore && run == 0) ? cb_pick : cb_pick0; cfg.fail = cb_fail; cfg.horizon = 2000000;
         vs_begin(&cfg);
         size_t r;
@@ -76,7 +76,7 @@ static void body(void) {
         if (vx_failed) goto out;
         if (!ZDICT_isError(r)) {
             if (r > cap) { vx_fail("%s returned %zu > capacity %zu", ALG[alg], r, cap); goto out; }
-            for (size_t g = 0; g < 16; g++) if (dst[cap + g] != 0xCD) { vx_fail("%s wrote beyond the dictionary capacity", ALG[alg]); goto out; }
+            for (size_t g = 0; g < 16; g++) if (dst[cap + g] != fillByte) { vx_fail("%s wrote beyond the dictionary capacity", ALG[alg]); goto out; }
         }
         if (threads > 1 && !g_explore) break;          /* determinism is only claimed for single-threaded runs */
         if (threads > 1) break;
